@@ -62,8 +62,23 @@ pub fn eval_c01(line: &str) -> String {
                 s.chars().map(|c| Ok::<_, std::convert::Infallible>(decoded(c))),
                 Options::strict(),
             )));
-            out.push(verdict(Value::parse_infallible(s.chars().map(decoded))));
-            out.push(verdict(Value::parse_infallible_with(s.chars().map(decoded), Options::strict())));
+            // the verdict does not depend on the lengths the characters declare: UTF-8 lengths, UTF-16 byte
+            // lengths, none at all, exactly 2^8 / 2^16 / 2^32 (one letter for all of them; X when they differ)
+            let all = |f: &dyn Fn(&dyn Fn(char) -> decoded_char::DecodedChar) -> char| {
+                let ls: [&dyn Fn(char) -> decoded_char::DecodedChar; 7] = [
+                    &decoded,
+                    &|c| decoded_char::DecodedChar::new(c, 2 * c.len_utf16()),
+                    &|c| decoded_char::DecodedChar::new(c, 0),
+                    &|c| decoded_char::DecodedChar::new(c, 256),
+                    &|c| decoded_char::DecodedChar::new(c, 512),
+                    &|c| decoded_char::DecodedChar::new(c, 65536),
+                    &|c| decoded_char::DecodedChar::new(c, 1 << 32),
+                ];
+                let vs: Vec<char> = ls.iter().map(|l| f(*l)).collect();
+                if vs.iter().all(|v| *v == vs[0]) { vs[0] } else { 'X' }
+            };
+            out.push(all(&|l| verdict(Value::parse_infallible(s.chars().map(l)))));
+            out.push(all(&|l| verdict(Value::parse_infallible_with(s.chars().map(l), Options::strict()))));
             out.push(match s.parse::<Value>() {
                 Ok(v) => {
                     drop_deep(v);
@@ -137,8 +152,18 @@ fn full_mapped<E>(r: &Result<(Value, CodeMap), Error<E>>, f: &dyn Fn(usize) -> S
 /// declared lengths of the characters before it, i.e. the image of the UTF-8 offset.
 fn declared_lengths_agree(s: &str, o: u32) -> bool {
     let reference = Value::parse_str_with(s, opts(o));
-    let schemes: [&dyn Fn(usize, char) -> usize; 3] =
-        [&|_, c| 2 * c.len_utf16(), &|_, _| 1, &|i, c| 1 + (i * 7 + c as usize) % 5];
+    // UTF-16 bytes; one unit per character; irregular lengths; and lengths no UTF encoding has: nothing at
+    // all, exactly 2^8 / 2^16 / 2^32 (a length kept in a narrower field becomes 0), alternately 0 and 1 MiB
+    let schemes: [&dyn Fn(usize, char) -> usize; 8] = [
+        &|_, c| 2 * c.len_utf16(),
+        &|_, _| 1,
+        &|i, c| 1 + (i * 7 + c as usize) % 5,
+        &|_, _| 0,
+        &|_, _| 256,
+        &|_, _| 65536,
+        &|_, _| 1 << 32,
+        &|i, _| if i % 2 == 0 { 0 } else { 1 << 20 },
+    ];
     let mut ok = true;
     for len_of in schemes {
         // UTF-8 offset of each boundary -> offset under the scheme
@@ -1182,6 +1207,35 @@ fn e12(out: &mut Out, os: &[u32]) {
     }
 }
 
+/// E13: byte inputs longer than 64 KiB in which a 2-, 3- or 4-byte character (whole, or cut short) lies
+/// across byte offset 65536 (thorough: 131072 too) in every alignment; the padding is white space, which
+/// the model skips in linear time.
+fn e13(out: &mut Out, os: &[u32], full: bool) {
+    for block in [65536usize, 131072] {
+        if block > 65536 && !full {
+            continue;
+        }
+        for ch in ["\u{e9}", "\u{20ac}", "\u{1f600}"] {
+            for k in (block - 4)..=(block + 1) {
+                // the character starts at byte k
+                let mut doc = vec![b' '; k - 2];
+                doc.push(b'[');
+                doc.push(b'"');
+                doc.extend_from_slice(ch.as_bytes());
+                let cut = doc.len() - 1;
+                doc.extend_from_slice(b"\", 1]\n");
+                for &o in os {
+                    out.case_str(&bytes_case(o, &doc));
+                }
+                // the same with the last byte of the character missing: ill-formed exactly there
+                let mut bad = doc.clone();
+                bad.remove(cut);
+                out.case_str(&bytes_case(0, &bad));
+            }
+        }
+    }
+}
+
 /// The shared suite.  `os` = option records to exercise.
 pub fn suite(args: &Args, out: &mut Out, os: &[u32], weight: usize) {
     let mut rng = Rng::new(args.seed);
@@ -1214,6 +1268,7 @@ pub fn suite(args: &Args, out: &mut Out, os: &[u32], weight: usize) {
     e10(out, os, full);
     e11(out, os, full);
     e12(out, os);
+    e13(out, os, full);
 }
 
 pub fn generate_c01(args: &Args, out: &mut Out) {
